@@ -31,6 +31,12 @@ ASSUMPTIONS = [
 # relinked under type hardlink; and the plain 3x3 diagonal
 _NEST = {"a": "A", "sub/c": "B", "sub/deep/d": "A"}
 CORPUS = [
+    # cache relocation: symlinks into the OLD cache whose objects are hard links of ours; a relinking checkout must
+    # point them at OUR cache (symlink), or replace them (hardlink / copy)
+    *[{"stream": "converge", "cls": cls, "types": [ty], "state": st, "relink": True, "second": "plain", "force": True,
+       "prompt": "none", "prior": {"a": ["A", "xsymshare"], "sub/c": ["B", "xsymshare"], "k": ["A", "xsymshare"]},
+       "target": {"a": "A", "sub/c": "B", "k": "A"}, "cache": ["A", "B"]}
+      for cls, ty, st in (("local", "symlink", False), ("base", "symlink", True), ("local", "hardlink", False), ("base", "copy", False))],
     # relink to independent copies: duplicates hard-linked to each other (not to the cache), base class
     *[{"stream": "converge", "cls": cls, "types": [ty], "state": False, "relink": True, "second": "plain", "force": True,
        "prompt": "none", "prior": {"a": ["A", "wshard"], "sub/c": ["A", "wshard"], "e": ["B", "copy"]},
